@@ -24,7 +24,9 @@ def rand_evse(rng, kinds=("EVSE", "DB", "FR"), allow_inf=False, user_p=0.06):
     r = rng.random()
     if user_p and rng.random() < user_p:
         return {"t": "FR", "rates": [0, 8, 16, 24, 32], "user": "cable"}  # user subclass: levels up to 32, max_rate = cable rating 24
-    if r < 0.35:
+    if r < 0.06:
+        rates = rng.choice([[0, 16], [16], [0, 32], [6]])  # an on/off charger: one non-zero level
+    elif r < 0.35:
         rates = [0] + list(range(6, 33))
     elif r < 0.7:
         rates = [0, 8, 16, 24, 32]
